@@ -367,21 +367,43 @@ func c06Delete(c *core.Ctx, idx int) {
 		c.Inconclusive("program without a deletable mandatory operand")
 		return
 	}
+	// "__halt_compiler();" anywhere but at the outermost level is a compile-time error of PHP (both families)
+	var nested []int
+	for _, site := range gen.ListSites(pc.root) {
+		switch site.Kind {
+		case "StmtFunction", "ExprClosure", "StmtStmtList", "StmtCase", "StmtDefault", "StmtCatch", "StmtFinally", "StmtTry":
+			for _, j := range site.Boundaries {
+				// in PHP mode only: not behind a close tag (that is inline HTML), not glued to a neighbour
+				if j > 0 && j < len(toks) && !toks[j].Str && !toks[j-1].Str && toks[j].Gap == gen.GapFree && toks[j].S != "" && !strings.Contains(toks[j-1].S, "?>") {
+					nested = append(nested, j)
+				}
+			}
+		}
+	}
 	n := c.P.Pick(4, 12)
 	for k := 0; k < n; k++ {
 		sp := spans[r.Intn(len(spans))]
 		bt := append(append([]gen.Tok{}, toks[:sp.From]...), toks[sp.To:]...)
+		if len(nested) > 0 && r.Chance(1, 8) {
+			j := nested[r.Intn(len(nested))]
+			hc := []gen.Tok{{S: r.Pick("__halt_compiler", "__HALT_COMPILER", "__Halt_Compiler")}, {S: "(", Gap: gen.GapBlank}, {S: ")", Gap: gen.GapBlank}, {S: ";", Gap: gen.GapBlank}}
+			bt = append(append(append([]gen.Tok{}, toks[:j]...), hc...), toks[j:]...)
+			sp.Rule = "insert:nested-halt-compiler"
+		}
 		mode := []int{gen.LayCanon, gen.LayMinimal, gen.LayLF, gen.LayCRLF, gen.LayMixed, gen.LayComments}[r.Intn(6)]
 		src := gen.Render(bt, mode, r.Split(fmt.Sprint("lay", k)), nil)
 		nerr, _ := c06Input(c, src, pc.ver)
 		c.Add("broken_programs_parsed", 1)
 		c.Add("mandatory_operand_deletions", 1)
-		c.Cover("edits", "delete:"+sp.Rule)
+		if !strings.HasPrefix(sp.Rule, "insert:") {
+			sp.Rule = "delete:" + sp.Rule
+		}
+		c.Cover("edits", sp.Rule)
 		if nerr == 0 {
 			if pr := obs.Parse(src, pc.ver, true); pr.Panic != nil {
 				continue
 			}
-			c.Violation(fmt.Sprintf("swallowed|fam%d|delete:%s", fam, sp.Rule), fmt.Sprintf("a program made invalid by deleting the mandatory operand %s was parsed under %s without any error", sp.Rule, pc.ver), core.W(src, pc.ver).With("edit", "delete:"+sp.Rule).With("valid_program", string(gen.Render(toks, gen.LayCanon, r, nil))))
+			c.Violation(fmt.Sprintf("swallowed|fam%d|%s", fam, sp.Rule), fmt.Sprintf("a program made invalid by the edit %s (a mandatory operand deleted / __halt_compiler(); inside a block) was parsed under %s without any error", sp.Rule, pc.ver), core.W(src, pc.ver).With("edit", sp.Rule).With("valid_program", string(gen.Render(toks, gen.LayCanon, r, nil))))
 			return
 		}
 	}
@@ -470,7 +492,7 @@ func c06Deep(c *core.Ctx, idx int) {
 func init() {
 	core.Register(&core.Check{
 		ID:   "C06",
-		Rule: "cases = known-finding witnesses ++ alternately (a) a generated valid program with 6 (quick) / 20 (thorough) independent guaranteed-breaking edits {insert unmatched closer/opener, delete one bracket, truncate after an operator, insert the operator pair '* /', append a stray quote} in PRNG layouts: >= 1 error required, (a'') a valid program from which one mandatory operand is deleted as a whole (26 node.role rules: catch variable, conditions, right side of an assignment, class of new / instanceof, member names, foreach source and target, initialisers, declared names): >= 1 error required, (a') a valid program with a PHP 5 compile-time error reported by the grammar actions (trait with extends/implements, foreach key by reference) inserted at a top-level boundary, or with the closing label of its last heredoc lengthened: >= 1 error required, (b) a hostile G3 input, (c) every 100th case a nesting construct nested 60..70 000 deep (brackets of every kind, blocks, ifs, calls, closures, ternaries, operator chains; depths at round numbers and powers of two): the valid program must parse silently and completely, the same program with one closer removed or one opener doubled must deliver an error, and 3 (quick) / 24 (thorough) runs of the real CLI with -e -p over 200 / 800 such files whose printed error blocks must equal the errors delivered for each file alone; for every parse: shape of every delivered error, callback-vs-nil tree equality, (for a third of the inputs with errors) a nested parse run from inside the callback, and for silent parses non-nil tree + tiling + print-back; non-trivial = program whose every broken variant was reported / hostile input that delivered an error; distinct by expected structure / input bytes",
+		Rule: "cases = known-finding witnesses ++ alternately (a) a generated valid program with 6 (quick) / 20 (thorough) independent guaranteed-breaking edits {insert unmatched closer/opener, delete one bracket, truncate after an operator, insert the operator pair '* /', append a stray quote} in PRNG layouts: >= 1 error required, (a'') a valid program from which one mandatory operand is deleted as a whole (26 node.role rules: catch variable, conditions, right side of an assignment, class of new / instanceof, member names, foreach source and target, initialisers, declared names; the last element of 19 lists that admit no trailing separator), or into which a nested __halt_compiler(); is inserted: >= 1 error required, (a') a valid program with a PHP 5 compile-time error reported by the grammar actions (trait with extends/implements, foreach key by reference) inserted at a top-level boundary, or with the closing label of its last heredoc lengthened: >= 1 error required, (b) a hostile G3 input, (c) every 100th case a nesting construct nested 60..70 000 deep (brackets of every kind, blocks, ifs, calls, closures, ternaries, operator chains; depths at round numbers and powers of two): the valid program must parse silently and completely, the same program with one closer removed or one opener doubled must deliver an error, and 3 (quick) / 24 (thorough) runs of the real CLI with -e -p over 200 / 800 such files whose printed error blocks must equal the errors delivered for each file alone; for every parse: shape of every delivered error, callback-vs-nil tree equality, (for a third of the inputs with errors) a nested parse run from inside the callback, and for silent parses non-nil tree + tiling + print-back; non-trivial = program whose every broken variant was reported / hostile input that delivered an error; distinct by expected structure / input bytes",
 		Assumptions: []string{
 			"'invalid' is only asserted for edits that are invalid by a counting argument (brackets balance in every valid program; no valid program ends in an operator; no grammar allows '* /')",
 			"an error message of the form unexpected 'X' names a single-character token whose text must be selected by the span; the close tag is delivered as ';'",
